@@ -148,6 +148,18 @@ func perState(c *vf.Ctx, cfg Cfg, which string, thorough bool) []failure {
 			fails = append(fails, tipCheck(cfg, true)...)
 			n++
 		}
+		if len(cfg.Path) > 0 && w.m.rows > 0 && w.m.cols > 0 {
+			// Tip on the view itself (may not return: Guard)
+			if c != nil {
+				c.Guard("Tip(view)|"+cfg.Sto, rank(cfg), Case{cfg, which, "Tip(view)", thorough})
+			}
+			f, oc := tipViewCheck(cfg)
+			fails = append(fails, f...)
+			if c != nil && oc != "" {
+				c.Count("Tip(view):"+cfg.Sto+":"+oc, 1)
+			}
+			n++
+		}
 	}
 	if c != nil {
 		c.Eval(n)
